@@ -77,14 +77,36 @@ func workerRules(c *Ctx) {
 		if q.need(adds, "PATH", "wg.Add(1)") {
 			a := adds[0]
 			one, isC := constInt(callArg(a, 1))
-			okw := isC && one == 1 && an.IsLoadOfField(callArg(a, 0), "Worker.wg")
+			// "the current wait group": loaded from Worker.wg, or the value this call has just stored there
+			isCurrentWG := func(v ssa.Value) bool {
+				srcs := P.Sources(v)
+				if len(srcs) == 0 {
+					return false
+				}
+				for _, s := range srcs {
+					if an.IsLoadOfField(s, "Worker.wg") {
+						continue
+					}
+					stored := false
+					for _, st := range an.FieldStores(q.fn, "Worker.wg") {
+						if srcIs(P, st.(*ssa.Store).Val, s) {
+							stored = true
+						}
+					}
+					if !stored {
+						return false
+					}
+				}
+				return true
+			}
+			okw := isC && one == 1 && isCurrentWG(callArg(a, 0))
 			q.add("PROV", "each Do registers exactly one holder on the current wait group", okw, "x.wg.Add(1)", a)
 			for _, r := range returnsOf(q.fn) {
 				vs := c.retVals(r, 0)
 				okr := len(vs) == 1
 				if okr {
 					mc, isMC := vs[0].(*ssa.MakeClosure)
-					okr = isMC && strings.Contains(mc.Fn.(*ssa.Function).String(), "WaitGroup).Done") && len(mc.Bindings) == 1 && an.IsLoadOfField(mc.Bindings[0], "Worker.wg")
+					okr = isMC && strings.Contains(mc.Fn.(*ssa.Function).String(), "WaitGroup).Done") && len(mc.Bindings) == 1 && isCurrentWG(mc.Bindings[0])
 				}
 				q.add("PROV", "the done function releases exactly that registration", okr && P.Before(q.fn, an.Is(a), r), "returns x.wg.Done after x.wg.Add(1)", r)
 			}
